@@ -176,3 +176,130 @@ mut("c07-benign-extract-flush-helper", "C07", A,
 
     /// Writes all of `Parser::output_buffer` into `self.output`.
     fn poll_output(""")])
+
+# ---- C13 -------------------------------------------------------------------------------------------------
+mut("c13-semaphore-plus-one", "C13", A,
+    """        let sema = async_lock::Semaphore::new(self.max_conns.get());""",
+    """        let sema = async_lock::Semaphore::new(self.max_conns.get() + 1);""",
+    "R13.2/semaphore-size", "one permit too many")
+mut("c13-clone-new-semaphore", "C13", A,
+    """        Self { config: self.config.clone(), sema: self.sema.clone(), stop, wg: WaitGroup::new() }""",
+    """        let sema = Arc::new(async_lock::Semaphore::new(self.config.max_conns.get()));
+        Self { config: self.config.clone(), sema, stop, wg: WaitGroup::new() }""",
+    "R13.2", "each clone gets its own limit")
+mut("c13-token-without-permit", "C13", A,
+    """        let sg = self.sema.acquire_arc().await;""",
+    """        let sg = match self.sema.try_acquire_arc() {
+            Some(g) => g,
+            None => {
+                self.sema.add_permits(1);
+                self.sema.acquire_arc().await
+            },
+        };""",
+    "R13.", "mints a permit when none is free")
+mut("c13-forget-permit", "C13", A,
+    """        Poll::Ready(Ok(buf.len()))
+    }
+
+    fn poll_flush""",
+    """        if buf.len() == usize::MAX {
+            std::mem::forget(this.writer.clone());
+        }
+        Poll::Ready(Ok(buf.len()))
+    }
+
+    fn poll_flush""",
+    "R13.3/leak-primitive", "a leak primitive appears in the crate")
+mut("c13-extra-await-in-get-token", "C13", A,
+    """        let tt = self.wg.add_task();""",
+    """        let tt = self.wg.add_task();
+        std::future::ready(()).await;""",
+    "R13.1/get-token-suspends-once", "second suspension point between acquiring the permit and handing out the token")
+mut("c13-benign-reorder-token-fields", "C13", A,
+    """        Token { config: self.config.clone(), stop_fut: self.stop.listen(), _sg: sg, _tt: tt }""",
+    """        Token { _tt: tt, _sg: sg, stop_fut: self.stop.listen(), config: self.config.clone() }""",
+    None, "field order in the constructor expression")
+
+# ---- C14 -------------------------------------------------------------------------------------------------
+U = "src/async_io/util.rs"
+mut("c14-empty-drop", "C14", U,
+    """    fn drop(&mut self) {
+        self.waker.wake();
+    }""",
+    """    fn drop(&mut self) {
+        let _ = &self.waker;
+    }""",
+    "R14.1/drop-wakes", "last token drop wakes nobody")
+mut("c14-pending-without-register", "C14", U,
+    """            Some(wg) => {
+                wg.waker.register(cx.waker());
+                Poll::Pending
+            },""",
+    """            Some(wg) => {
+                if Arc::strong_count(&wg) > 2 {
+                    wg.waker.register(cx.waker());
+                }
+                Poll::Pending
+            },""",
+    "R14.2", "register skipped on some path")
+mut("c14-drop-before-register", "C14", U,
+    """            Some(wg) => {
+                wg.waker.register(cx.waker());
+                Poll::Pending
+            },""",
+    """            Some(wg) => {
+                let weak = Arc::downgrade(&wg);
+                drop(wg);
+                if let Some(wg) = weak.upgrade() {
+                    wg.waker.register(cx.waker());
+                }
+                Poll::Pending
+            },""",
+    "R14.2", "window between liveness check and registration")
+mut("c14-notify-one", "C14", A,
+    """        self.stop.notify(usize::MAX);""",
+    """        self.stop.notify(1);""",
+    "R14.3/notify-before-wait", "only one idle connection woken")
+mut("c14-notify-after-wait", "C14", A,
+    """        self.stop.notify(usize::MAX);
+        std::future::IntoFuture::into_future(self.wg)""",
+    """        let fut = std::future::IntoFuture::into_future(self.wg);
+        self.stop.notify(usize::MAX);
+        fut""",
+    None, "order of two non-blocking calls (both before the future is polled): benign")
+mut("c14-select-swapped", "C14", A,
+    """                match select(&mut self.stop_fut, req_fut).await {
+                    Either::Left(((), _)) => {
+                        tracing::debug!("connection shutdown");
+                        return;
+                    },
+                    Either::Right((Ok(p), _)) => p,
+                    Either::Right((Err(e), _)) if e.kind() == io::ErrorKind::ConnectionReset => {
+                        tracing::debug!("connection closed by remote");
+                        return;
+                    },
+                    Either::Right((Err(e), _)) => {""",
+    """                match select(req_fut, &mut self.stop_fut).await {
+                    Either::Right(((), _)) => {
+                        tracing::debug!("connection shutdown");
+                        return;
+                    },
+                    Either::Left((Ok(p), _)) => p,
+                    Either::Left((Err(e), _)) if e.kind() == io::ErrorKind::ConnectionReset => {
+                        tracing::debug!("connection closed by remote");
+                        return;
+                    },
+                    Either::Left((Err(e), _)) => {""",
+    "R14.4", "preamble polled before the stop listener: a handler can start in a step that begins after shutdown")
+mut("c14-shutdown-by-ref", "C14", A,
+    """    pub fn shutdown(self) -> util::WaitGroupFuture {
+        self.stop.notify(usize::MAX);
+        std::future::IntoFuture::into_future(self.wg)""",
+    """    pub fn shutdown(&self) -> util::WaitGroupFuture {
+        self.stop.notify(usize::MAX);
+        std::future::IntoFuture::into_future(util::WaitGroup::clone_group(&self.wg))""",
+    "R14.3", "runner survives shutdown", extra=[(U, """    /// Returns the number of active tasks.""", """    pub(crate) fn clone_group(this: &Self) -> Self {
+        Self(this.0.clone())
+    }
+
+    /// Returns the number of active tasks.""")])
